@@ -156,7 +156,14 @@ DEFAULT_WORDS = ["now()", "current_timestamp", "CURRENT_TIMESTAMP", "CURRENT_DAT
 @st.composite
 def default_value(draw):
     """-> (text as written, expected value)"""
-    k = draw(st.integers(0, 9))
+    k = draw(st.integers(0, 10))
+    if k == 10:
+        # parenthesised default (SQL Server scripts them that way): reported without the parentheses
+        if draw(st.booleans()):
+            lit = draw(safe_literal())
+            return "(" + lit + ")", lit
+        digits = draw(st.text(alphabet="0123456789", min_size=1, max_size=12))
+        return "(" + digits + ")", int(digits)
     if k <= 2:
         lit = draw(safe_literal())
         return lit, lit
@@ -250,7 +257,10 @@ def column_tokens(col):
         elif k == "DEFAULT":
             text = o[1]
             toks += K("DEFAULT")
-            if text.startswith("'"):
+            if text.startswith("(") and text.endswith(")"):
+                inner = text[1:-1]
+                toks += [LP, L(inner) if inner.startswith("'") else N(inner), RP]
+            elif text.startswith("'"):
                 toks.append(L(text))
             elif text.upper() == "NULL":
                 toks.append((text, "K"))
